@@ -56,6 +56,7 @@ type Explorer struct {
 	Bound int
 	St    Stats
 	child uint64
+	Whole bool // this worker explores the whole tree of the scenario (scenario-level sharding)
 }
 
 func schedString(devs []dev) string {
@@ -219,7 +220,7 @@ func (x *Explorer) explore(devs []dev, cost, bound, depth int) bool {
 				// shard the root's children over the workers
 				k := x.child
 				x.child++
-				if !x.C.Mine(k) {
+				if !x.Whole && !x.C.Mine(k) {
 					continue
 				}
 			}
@@ -233,7 +234,7 @@ func (x *Explorer) explore(devs []dev, cost, bound, depth int) bool {
 }
 
 func (x *Explorer) record(e *vsched.Execution, o Outcome, devs []dev, cost int) {
-	if len(devs) == 0 && x.C.Shard != 0 {
+	if len(devs) == 0 && x.C.Shard != 0 && !x.Whole {
 		return // the root execution is counted by worker 0 only
 	}
 	x.St.Execs++
@@ -282,11 +283,19 @@ func Replay(c *vlib.Ctx, scs []*Scenario, w string) {
 }
 
 // RunAll explores every scenario with the given bound and fills the context counters.
-func RunAll(c *vlib.Ctx, scs []*Scenario, bound int) {
+func RunAll(c *vlib.Ctx, scs []*Scenario, bound int) { runAll(c, scs, bound, false) }
+
+// RunAllByScenario shards by scenario instead of by subtree (many small scenarios).
+func RunAllByScenario(c *vlib.Ctx, scs []*Scenario, bound int) { runAll(c, scs, bound, true) }
+
+func runAll(c *vlib.Ctx, scs []*Scenario, bound int, byScenario bool) {
 	minBound := bound
 	var execs int64
-	for _, sc := range scs {
-		x := &Explorer{C: c, Sc: sc, Bound: bound}
+	for i, sc := range scs {
+		if byScenario && !c.Mine(uint64(i)) {
+			continue
+		}
+		x := &Explorer{C: c, Sc: sc, Bound: bound, Whole: byScenario}
 		ok := x.Explore()
 		execs += x.St.Execs
 		if x.St.BoundCompleted < minBound {
